@@ -9,7 +9,7 @@ sys.path.insert(0, VERIF)
 PROPS = [f"C{i:02d}" for i in range(1, 21)]
 # known findings reported on the unchanged tree (property -> ids): a refactoring that keeps behaviour keeps the defects too, so a
 # finding that silently disappears on a probe means a rule lost sight of the code (a miss in waiting), and is printed as well
-BASE_KNOWN = {"C02": {"F1"}, "C03": {"F1"}, "C05": {"F1"}, "C06": {"F1"}, "C08": {"F1"}, "C14": {"F1"}, "C15": {"F5a", "F5b", "F5c"}, "C16": {"F6"}, "C17": {"F6"}}
+BASE_KNOWN = {"C02": {"F1", "F10"}, "C03": {"F1", "F10"}, "C05": {"F1"}, "C06": {"F1"}, "C08": {"F1"}, "C14": {"F1"}, "C15": {"F5a", "F5b", "F5c"}, "C16": {"F6"}, "C17": {"F6"}}
 
 
 def one(name: str):
